@@ -102,6 +102,8 @@ class Run(object):
                 sid, d = IDS[e["s"]], DIRS[e["d"]]
                 if a == "Upload":
                     line = "650 HS_DESC UPLOAD %s UNKNOWN %s desc%s\r\n" % (sid, d, e["d"])
+                elif a == "FetchFailed":
+                    line = "650 HS_DESC FAILED %s NO_AUTH %s REASON=NOT_FOUND\r\n" % (sid, d)
                 elif a == "Uploaded":
                     line = "650 HS_DESC UPLOADED %s UNKNOWN %s\r\n" % (sid, d)
                 else:
